@@ -262,6 +262,10 @@ type Sim struct {
 	SM    *smDeco
 	Hooks Hooks
 	OnOp  func(s *Sim, o *OpRec)
+	// InCallback runs synchronously inside OnTableStateUpdated on the engine's
+	// goroutine. It must not draw; whatever it does is planned beforehand.
+	InCallback func(s *Sim, name string, t *pokertable.Table)
+	FenceWait  time.Duration // overrides the wait for the post-settlement fence when > 0
 
 	q        *queue
 	finished int32
@@ -335,6 +339,11 @@ func New(ch *choose.Recorder, cfg Config, hooks Hooks) *Sim {
 		}
 		c, raw := cloneTable(t)
 		s.q.push(&Event{Kind: "state", Name: name, Table: c, Raw: raw})
+		// pre-planned actions that must run inside the callback (on the engine's
+		// goroutine), e.g. "close the table during the continue delay"
+		if f := s.InCallback; f != nil {
+			f(s, name, c)
+		}
 	}
 	cb.OnTableErrorUpdated = func(t *pokertable.Table, err error) {
 		if !alive() {
